@@ -161,44 +161,60 @@ Definition removal_events (c : config) (found : list endpoint) (hs : hosts) : li
   flat_map (fun eh : endpoint * host => if keep c found (fst eh) then [] else [ELbpRemove (fst eh); EListenerRemove (fst eh)]) hs.
 
 (* ------------------------------------------------------------------ one refresh *)
-Definition refresh (c : config) (force : bool) (st : state) (sn : snapshot) : state * list event :=
-  (* local row *)
-  let '(hs0, ev0, found0, partitioner, tok0) :=
-    match sn_local sn with
-    | None => (st_hosts st, [], [], false, [])
-    | Some l =>
-        match find (control c) (st_hosts st) with
-        | None => (st_hosts st, [], [control c], l_partitioner l, [])
-        | Some h =>
-            let '(ev, _) := update_location (control c) h (l_dc l) (l_rack l) in      (* result ignored by the code *)
-            (replace (control c) {| h_dc := l_dc l; h_rack := l_rack l; h_host_id := l_host_id l |} (st_hosts st),
-             ev, [control c], l_partitioner l,
-             if l_partitioner l && nonempty (l_tokens l)
-             then [(control c, match l_tokens l with Some t => t | None => [] end)] else [])
-        end
-    end in
-  let rebuild0 := force || negb (st_partitioner st) in
-  (* peers *)
-  let acc := accept c found0 (sn_peers sn) in
-  let '(hs1, ev1, rebuild1) := apply_rows hs0 acc in
-  let found := found0 ++ map fst acc in
-  (* removals *)
-  let hs2 := filter (fun eh : endpoint * host => keep c found (fst eh)) hs1 in
-  let ev2 := removal_events c found hs1 in
-  let removed := negb (Nat.eqb (length hs2) (length hs1)) in
-  let rebuild := rebuild0 || rebuild1 || removed in
-  let toks := tok0 ++ peer_tokens c partitioner acc in
-  if partitioner && rebuild then
-    ({| st_hosts := hs2; st_partitioner := true; st_tokens := Some toks |}, ev0 ++ ev1 ++ ev2 ++ [ERebuild toks])
-  else
-    ({| st_hosts := hs2; st_partitioner := st_partitioner st; st_tokens := st_tokens st |}, ev0 ++ ev1 ++ ev2).
+(* the system.local part: control host's record, found_hosts so far, partitioner, the control node's tokens *)
+Record lres := { lr_hosts : hosts; lr_events : list event; lr_found : list endpoint; lr_part : bool; lr_tok : assignment }.
 
-(* the token assignment the snapshot describes (what a rebuild would install) *)
-Definition snapshot_tokens (c : config) (st : state) (sn : snapshot) : assignment :=
-  match fst (refresh c true st sn) with
-  | {| st_tokens := Some t |} => t
-  | _ => []
+Definition local_part (c : config) (st : state) (sn : snapshot) : lres :=
+  match sn_local sn with
+  | None => {| lr_hosts := st_hosts st; lr_events := []; lr_found := []; lr_part := false; lr_tok := [] |}
+  | Some l =>
+      match find (control c) (st_hosts st) with
+      | None => {| lr_hosts := st_hosts st; lr_events := []; lr_found := [control c]; lr_part := l_partitioner l; lr_tok := [] |}
+      | Some h =>
+          {| lr_hosts := replace (control c) {| h_dc := l_dc l; h_rack := l_rack l; h_host_id := l_host_id l |} (st_hosts st);
+             lr_events := fst (update_location (control c) h (l_dc l) (l_rack l));     (* the boolean result is ignored by the code *)
+             lr_found := [control c];
+             lr_part := l_partitioner l;
+             lr_tok := if l_partitioner l && nonempty (l_tokens l)
+                       then [(control c, match l_tokens l with Some t => t | None => [] end)] else [] |}
+      end
   end.
+
+(* the peers rows that are used, and what they do to the hosts *)
+Definition accepted (c : config) (st : state) (sn : snapshot) : list (endpoint * row) :=
+  accept c (lr_found (local_part c st sn)) (sn_peers sn).
+
+Definition peers_part (c : config) (st : state) (sn : snapshot) : hosts * list event * bool :=
+  apply_rows (lr_hosts (local_part c st sn)) (accepted c st sn).
+
+Definition found_all (c : config) (st : state) (sn : snapshot) : list endpoint :=
+  lr_found (local_part c st sn) ++ map fst (accepted c st sn).
+
+Definition hosts_mid (c : config) (st : state) (sn : snapshot) : hosts := fst (fst (peers_part c st sn)).
+
+Definition hosts_after (c : config) (st : state) (sn : snapshot) : hosts :=
+  filter (fun eh : endpoint * host => keep c (found_all c st sn) (fst eh)) (hosts_mid c st sn).
+
+(* token_map as handed to rebuild_token_map: what the snapshot says about tokens *)
+Definition snapshot_tokens (c : config) (st : state) (sn : snapshot) : assignment :=
+  lr_tok (local_part c st sn) ++ peer_tokens c (lr_part (local_part c st sn)) (accepted c st sn).
+
+Definition some_removed (c : config) (st : state) (sn : snapshot) : bool :=
+  negb (Nat.eqb (length (hosts_after c st sn)) (length (hosts_mid c st sn))).
+
+Definition should_rebuild (c : config) (force : bool) (st : state) (sn : snapshot) : bool :=
+  force || negb (st_partitioner st) || snd (peers_part c st sn) || some_removed c st sn.
+
+Definition notifications (c : config) (st : state) (sn : snapshot) : list event :=
+  lr_events (local_part c st sn) ++ snd (fst (peers_part c st sn)) ++ removal_events c (found_all c st sn) (hosts_mid c st sn).
+
+Definition refresh (c : config) (force : bool) (st : state) (sn : snapshot) : state * list event :=
+  if lr_part (local_part c st sn) && should_rebuild c force st sn then
+    ({| st_hosts := hosts_after c st sn; st_partitioner := true; st_tokens := Some (snapshot_tokens c st sn) |},
+     notifications c st sn ++ [ERebuild (snapshot_tokens c st sn)])
+  else
+    ({| st_hosts := hosts_after c st sn; st_partitioner := st_partitioner st; st_tokens := st_tokens st |},
+     notifications c st sn).
 
 (* any sequence of (force_token_rebuild, snapshot) *)
 Fixpoint run (c : config) (st : state) (steps : list (bool * snapshot)) : list (state * list event) :=
